@@ -43,6 +43,7 @@ type Atom struct {
 	Substs   []paramSubst    // parameter substitutions of the inlining chain (innermost first)
 	CtxOuter string          // condition context of the call site(s) through which this atom was inherited
 	Outer    *Atom           // the caller's atom through which this atom was inherited
+	PureSkip bool            // the filter's branch does nothing but skip the element (`if c { continue }`)
 	ShapeP   string          // Shape with the function's parameters kept as ⟦$i|<type>⟧ tokens
 	ConjP    string          // Conj likewise
 }
@@ -1135,13 +1136,18 @@ func (u *Unit) extractAtoms(g *GuardEngine) {
 			return true
 		}
 		skipWhen := true
+		pure := len(ifs.Body.List) == 1
 		br, ok := ifs.Body.List[len(ifs.Body.List)-1].(*ast.BranchStmt)
-		if ok && br.Tok == token.CONTINUE {
-			// a `continue` with nothing after it in the loop body filters nothing
-			if u.lastInLoopBody(ifs) && br.Label == nil {
+		if ok && br.Tok == token.CONTINUE && u.lastInLoopBody(ifs) && br.Label == nil {
+			// `if c { X; continue }` as the last statement is `if c { X }`: the trailing continue is a no-op
+			if pure {
 				return true
 			}
+			ok = false
+		}
+		if ok && br.Tok == token.CONTINUE {
 		} else {
+			pure = true
 			// `for … { if c { body } }` is `for … { if !c { continue }; body }`: the same element filter
 			if !u.lastInLoopBody(ifs) || len(blk.Succs) != 2 || u.FR[blk.Succs[0]] || u.FR[blk.Succs[1]] {
 				return true
@@ -1157,7 +1163,7 @@ func (u *Unit) extractAtoms(g *GuardEngine) {
 		var leaves []leafInfo
 		splitLeaves(ifs.Cond, skipWhen, &leaves)
 		for _, lf := range leaves {
-			a := &Atom{Leaf: lf.expr, FailTrue: lf.failTrue, Block: blk, Unit: u, Pos: lf.expr.Pos(), Must: pd[blk], InLit: u.Lit != nil, Skip: true}
+			a := &Atom{Leaf: lf.expr, FailTrue: lf.failTrue, Block: blk, Unit: u, Pos: lf.expr.Pos(), Must: pd[blk], InLit: u.Lit != nil, Skip: true, PureSkip: pure}
 			if len(blk.Succs) == 2 {
 				a.FailSucc, a.OkSucc = blk.Succs[0], blk.Succs[1]
 				if !skipWhen {
